@@ -251,7 +251,17 @@ def run(ctx):
         fl, ci, addr, fill, half, _ = r["job"]
         samples.append({"family": "cell", "cpu": cl[ci]["name"], "addr": addr, "fill": fill, "exhausted_halfword": half,
                         "example_decodes": [(t[2], t[3]) for t in r["texts"][:3]]})
-    cov = {"states": states + nranges, "transitions": decodes + 2 * nranges, "traces_validated_against_impl": decodes + 2 * nranges,
+    # the range-less walk of naken_util (-disasm: UtilContext::disasm over the loaded pages) must reach every block of the image
+    from checks import C19
+    nwalk = 0
+    for cfg in C19.WALK_CPUS:
+        for shape in (C19.WALK_SHAPES[:4] if ctx.quick() else C19.WALK_SHAPES):
+            v = C19.walk_case(cfg, shape, "cli")
+            nwalk += 1
+            if v:
+                ctx.violation("%s|cli-walk|%x+%x" % (cfg, shape[0], shape[1]), "cli-walk", "[%s -disasm] %s" % (cfg, v[1]),
+                              {"kind": "cli-walk", "cpu": cfg, "shape": list(shape)})
+    cov = {"states": states + nranges, "transitions": decodes + 2 * nranges, "traces_validated_against_impl": decodes + 2 * nranges, "cli_page_walks": nwalk,
            "evaluations": decodes + nranges, "distinct_nontrivial": states,
            "rule": "cells: all 65 536 values of one half-word x operand-byte fill x address per CPU (each decoded twice: as posed and with every byte after "
                    "the returned length complemented), under zero- and pattern-initialised memory; distinct = distinct (cpu, text, length); ranges: "
@@ -265,6 +275,10 @@ def run(ctx):
 
 def replay(rec):
     cl = cpus.cpu_list()
+    if rec["kind"] == "cli-walk":
+        from checks import C19
+        v = C19.walk_case(rec["cpu"], tuple(rec["shape"]), "cli")
+        return bool(v), str(v)
     if rec["kind"] in ("cell", "uninit"):
         ci = cpus.cpu(rec["cpu"])["index"]
         if rec["kind"] == "uninit":
